@@ -1,0 +1,32 @@
+//go:build verif
+
+package unicodedata
+
+import (
+	"unicode"
+
+	"github.com/go-text/typesetting/language"
+)
+
+// Verification hooks (property C20, vertical orientation).  Add-only file; compiled only with -tags verif.
+
+// VerifC20VO exposes the fields of a ScriptVerticalOrientation.
+type VerifC20VO struct {
+	Exceptions     *unicode.RangeTable
+	Script         language.Script
+	IsMainSideways bool
+}
+
+// VerifC20VOFields returns the fields of sv.
+func VerifC20VOFields(sv ScriptVerticalOrientation) VerifC20VO {
+	return VerifC20VO{sv.exceptions, sv.script, sv.isMainSideways}
+}
+
+// VerifC20UprightOrMixedScripts returns uprightOrMixedScripts in table order.
+func VerifC20UprightOrMixedScripts() []VerifC20VO {
+	out := make([]VerifC20VO, len(uprightOrMixedScripts))
+	for i, sv := range uprightOrMixedScripts {
+		out[i] = VerifC20VOFields(sv)
+	}
+	return out
+}
